@@ -252,7 +252,7 @@ def run_case_symbolic(hname, case, opts):
         res['cex'].append(dict(label=label, info=jsonable(info), inputs=inputs, script=script, nice=nice, case=case))
 
     def body():
-        arr.CFG.update(lazy_where=False, concretize_index=False, argsort_declarative=True)
+        arr.CFG.update(lazy_where=False, concretize_index=False, argsort_declarative=True, linalg_solve_stub=False)
         arr.CFG.update(case.get('cfg', {}))
         g = _INSTALLED[0][2]; g.rng = None; g.ctor_hook = None
         mode = SymMode(case, eng); state['mode'] = mode
